@@ -616,6 +616,36 @@ def reused_delete_with_a_computed_segment(col):
                               % (desc, key, type(key).__name__, got if not got.ok else 'returned', t, w), None)
 
 
+def empty_segments_in_string_paths(col):
+    """'' is a key like any other: an empty segment of a string path (leading or trailing dot, two dots in a row, the empty path) addresses
+    it, exactly as Path(..., '', ...) and T[''] do"""
+    import copy
+    cases = [
+        ("'.a'", {'': {'a': 1, 'b': 2}, 'a': 3}, '.a', Path('', 'a'), lambda t: t[''].__delitem__('a')),
+        ("'a.'", {'a': {'': 1, 'x': 2}, '': 3}, 'a.', Path('a', ''), lambda t: t['a'].__delitem__('')),
+        ("''", {'': 1, 'a': 2}, '', Path(''), lambda t: t.__delitem__('')),
+        ("'a..b'", {'a': {'': {'b': 1, 'c': 2}, 'b': 3}}, 'a..b', Path('a', '', 'b'), lambda t: t['a'][''].__delitem__('b')),
+        ("'.a' with the '' key missing", {'a': 3}, '.a', Path('', 'a'), None),
+        ("'a.' with the '' key missing", {'a': {'x': 2}}, 'a.', Path('a', ''), None),
+        ("'rows.*.'", {'rows': [{'': 1, 'k': 2}, {'': 3}]}, 'rows.*.', Path('rows', T.__star__(), ''), lambda t: [r.__delitem__('') for r in t['rows']]),
+    ]
+    for desc, target, text, path, py in cases:
+        for im in (False, True):
+            t_text, t_path, twin = copy.deepcopy(target), copy.deepcopy(target), copy.deepcopy(target)
+            if py is not None:
+                py(twin)
+            got_text = call(delete, t_text, text, ignore_missing=im)
+            got_path = call(delete, t_path, path, ignore_missing=im)
+            col.case(('empty-segment', desc, im), True)
+            col.count('deletions_attempted', 2)
+            want_ok = py is not None or (im and 'with the' in desc and desc.startswith("'a.'"))
+            same = got_text.ok == got_path.ok and t_text == t_path and (got_text.ok or type(got_text.exc) is type(got_path.exc))
+            if not same or t_path != twin or (py is not None and not got_text.ok):
+                col.violation('C12/empty-segment-of-a-string-path-does-not-address-the-empty-key', 'delete(.., %r%s): %r, target now %r ; the Path spelling %r: %r, target now %r ; '
+                              'plain del gives %r' % (text, ', ignore_missing=True' if im else '', got_text if not got_text.ok else 'returned', t_text, path,
+                                                      got_path if not got_path.ok else 'returned', t_path, twin), None)
+
+
 class _Vault:
     """children reachable only through the get handler a Glommer registers for it (no attributes, no __getitem__)"""
     __slots__ = ('_cells',)
@@ -680,5 +710,6 @@ def run(ctx):
         delete_runs_in_the_context_of_the_call(col)
         reused_delete_object(col, rng)
         reused_delete_with_a_computed_segment(col)
+        empty_segments_in_string_paths(col)
     for i in range(ctx.n(350, 3500)):
         one_target(col, rng)
